@@ -22,6 +22,15 @@ def run(ctx):
     quick = ctx.tier == "quick"
     ctx.cov["rule"] = ("one event per plugin call; non-trivial = calls that raised the threefold flag (each needs a history "
                        "with two earlier occurrences); distinct = calls (each has its own history).")
+    # design level: the table-based implementation (saturating counter, flag = counter == 3) gives the
+    # contract's answers for every call sequence on a small position graph with cycles (spec/Bot.tla)
+    rm = ctx.tlc("BotMC", "BotMC.cfg", workers=4, timeout=900, name="bot-model")
+    if rm["violated"] or rm["errors"]:
+        ctx.violation("bot-design-model", {"tlc": (rm["violated"] + rm["errors"])[:3]}, {"kind": "tlc", "module": "BotMC", "cfg": "BotMC.cfg"})
+    ctx.cov["states"] += rm["distinct"]
+    ctx.cov["transitions"] += rm["generated"]
+    ctx.cov["steps"].append({"step": "design model (table = history count, illegal = stutter)", "distinct": rm["distinct"]})
+    os.remove(rm["out_path"])
     keys = ctx.keys()
     jobs = [("shuffle", "", i, 2500 if quick else 40000) for i in range(10 if quick else 42)]
     jobs.append(("long", "std", 0, 1200))
